@@ -11,7 +11,7 @@ PROPERTY = 'C12'
 RULE = ('full product of residue strings of length 1..L over {K,S,M,G} x rule sets (26 single rules: 13 target sets x 2-3 '
         'modification lists; 12 pairs of rules) x pre-existing modification on a targeted residue / terminus x ion types '
         '{p,b,y,c,z}; label layer: strings x {13C,15N,18O,17O,34S,D,T,2H} singly and 9 pairs x modification carrying '
-        'residues x use_isotope_on_mods; a state = (string, rules or labels, pre-mods); non-trivial = a rule matches a '
+        'residues / termini / unknown position / global rules x use_isotope_on_mods; a state = (string, rules or labels, pre-mods); non-trivial = a rule matches a '
         'target / the peptide contains the labelled element')
 ASSUMPTIONS = ['the explicit form is the rule expanded onto every target by the harness, own modifications first',
                'label shifts are evaluated on the neutral species (charge 0/None): n_el counted on residues + terminal/ion '
@@ -46,6 +46,8 @@ def rules():
 
 
 RULES = rules()
+# where the modification of the label layer sits (its atoms are relabelled only on request, wherever it is written)
+WHERE = ['r0', 'rlast', 'nterm', 'cterm', 'unknown', 'rule-C-Term', 'rule-N-Term', 'rule-first-residue']
 
 
 def describe(tier):
@@ -78,7 +80,9 @@ def gen(shard, tier):
         else:
             for labs in [[l] for l in LABELS] + LABEL_PAIRS:
                 for mod in (None, 'Oxidation', 'Formula:C2H2O', '10', 'Label:13C(6)', 'Formula:C2H4OS'):
-                    yield {'kind': 'label', 'seq': seq, 'labels': labs, 'mod': mod}, len(labs) + (mod is not None), True
+                    for where in (['r0'] if mod is None else WHERE):
+                        yield {'kind': 'label', 'seq': seq, 'labels': labs, 'mod': mod, 'where': where}, \
+                            len(labs) + (mod is not None), True
 
 
 def build(case):
@@ -166,11 +170,26 @@ def check(case, ctx):
         labs = case['labels']
         P = {'seq': seq}
         if case['mod'] is not None:
-            P['res'] = [[0, [[case['mod'], 1]]]]
+            w = case.get('where', 'r0')
+            ml = [[case['mod'], 1]]
+            if w == 'r0':
+                P['res'] = [[0, ml]]
+            elif w == 'rlast':
+                P['res'] = [[n - 1, ml]]
+            elif w in ('nterm', 'cterm', 'unknown'):
+                P[w] = ml
+            elif w == 'rule-first-residue':
+                P['res'] = None
+                P['static'] = [{'mods': ml, 'targets': [seq[0]]}]
+                P.pop('res')
+            else:
+                P['static'] = [{'mods': ml, 'targets': [w[5:]]}]
         s0 = pmodel.render(P)
         P2 = dict(P, isotope=labs)
         s1 = pmodel.render(P2)
         modcomp = catalogue.comp_of(case['mod']) if case['mod'] is not None else None
+        if modcomp and case.get('where') == 'rule-first-residue':
+            modcomp = {k: v * seq.count(seq[0]) for k, v in modcomp.items()}
         for ion in IONS:
             for on_mods in (False, True):
                 base = refmass.addc((refmass.residue_comp(seq), 1),
